@@ -6,6 +6,19 @@ int main() {
         GCase<DGraph> c; read_graph(t, c);
         std::vector<DGraph::vertex_descriptor> fvs;
         parmcb::greedy_fvs(c.g, std::back_inserter(fvs));
+        // the same call through POSITIONAL output iterators (a raw pointer into pre-sized storage, a vector iterator): the same vertices at consecutive positions
+        {
+            const size_t n = boost::num_vertices(c.g); const DGraph::vertex_descriptor none = (DGraph::vertex_descriptor) -1;
+            std::vector<DGraph::vertex_descriptor> buf(n + 1, none), buf2(n + 1, none);
+            parmcb::greedy_fvs(c.g, buf.data());
+            parmcb::greedy_fvs(c.g, buf2.begin());
+            for (size_t i = 0; i <= n; i++) {
+                DGraph::vertex_descriptor want = i < fvs.size() ? fvs[i] : none;
+                if (buf[i] != want || buf2[i] != want)
+                    throw std::runtime_error("positional output iterator: position " + std::to_string(i) + " holds " + std::to_string(buf[i]) + " / " + std::to_string(buf2[i])
+                                             + ", back_inserter gave " + std::to_string(want) + " (" + std::to_string((size_t) -1) + " = nothing written)");
+            }
+        }
         out << "OK";
         for (auto v : fvs) out << " " << v;
     });
